@@ -97,10 +97,21 @@ def reflect_constants():
         raise MachineryError("cannot reflect retry budget / resend period: %r" % (e,))
 
 
+def reflect_window():
+    """Size of the de-duplication memory: maxlen of the public deque Circuit.seen_reliable."""
+    try:
+        from hippolyzer.lib.base.message.circuit import Circuit
+        w = Circuit(None, PEER, None).seen_reliable.maxlen
+        assert isinstance(w, int) and w >= 2
+        return w
+    except Exception as e:  # noqa
+        raise MachineryError("cannot reflect the size of the de-duplication memory: %r" % (e,))
+
+
 class Driver:
     """One real client endpoint with one region circuit.  Must be created inside a running loop."""
 
-    def __init__(self, client):
+    def __init__(self, client, window=None):
         im = _imports()
         self.im = im
         self.clock = _Clock()
@@ -113,6 +124,13 @@ class Driver:
             raise MachineryError("open_circuit refused the login region")
         self.region = self.sess.regions[-1]
         self.region.circuit.is_alive = True
+        if window:
+            # a small de-duplication memory for the exhaustive model: the public deque is replaced by a shorter one.
+            # (An endpoint that ignores it just has a longer memory, which the specification allows.)
+            import collections
+            if not isinstance(getattr(self.region.circuit, "seen_reliable", None), collections.deque):
+                raise MachineryError("Circuit.seen_reliable is not a deque any more: adapt the window bridge")
+            self.region.circuit.seen_reliable = collections.deque(maxlen=window)
         self.calls = {h: [] for h in HANDLERS}
         for name in ("ChatFromSimulator", "PacketAck"):
             self.sess.message_handler.subscribe(name, self._handler("sess"))
@@ -305,6 +323,8 @@ class Driver:
 # ----------------------------------------------------------------------------------------
 
 _G: Graph = None
+_B1_WINDOW = None
+_WINDOW_REAL = 1000
 _SAMPLE_EVERY = 0
 
 
@@ -363,13 +383,15 @@ def _compare(drv: Driver, act, obs, ev):
         if any(t["resent"] or t["rel"] for t in tx):
             bad.append(("ack datagram is a fresh unreliable packet", None, tx))
         exp = 1 if out["deliver"] else 0
+        # a duplicate of an ID that was pushed out of the memory: dispatching it again or not is left open
+        is_open = bool(out.get("open"))
         for h in HANDLERS:
             got = ev["dl"][h]
-            if got != exp:
+            if got != exp and not is_open:
                 bad.append((("dup-dispatch/" if got > exp else "missing-dispatch/") + h, exp, got))
         if ev["dl"]["other"]:
             bad.append(("subscriber called for another packet", 0, ev["dl"]["other"]))
-        for lvl in ("sess", "reg"):
+        for lvl in (() if is_open else ("sess", "reg")):
             exp_calls, got_calls, kinds = out["calls"][lvl], ev["dl"]["dyn"][lvl], [x["k"] for x in obs["subs"][lvl]]
             if len(exp_calls) != len(got_calls):
                 raise MachineryError("driver and model disagree on the number of extra subscribers")
@@ -402,7 +424,7 @@ def _compare(drv: Driver, act, obs, ev):
         for key, spec in (("delivR", True), ("delivU", False)):
             for p, cnt in obs[key]:
                 got = drv.cum[h].get((p, spec), 0)
-                if got != cnt:
+                if got != cnt and not (spec and p in obs["forgotten"]):
                     bad.append((("dup-dispatch/" if got > cnt else "missing-dispatch/") + h, [p, cnt], got))
     for p, cnt in obs["ackedR"]:
         if drv.acked_cum.get(p, 0) != cnt:
@@ -422,7 +444,7 @@ async def _replay_async(edge_ids):
             # (stray datagram, idle clock step) is never on a BFS-tree path, so it is replayed in front of every edge
             loop, ei = item if isinstance(item, tuple) else (None, item)
             e = g.edges[ei]
-            drv = Driver(client)
+            drv = Driver(client, _B1_WINDOW)
             path = g.path_to(e["_s"]) + ([g.edges[loop]] if loop is not None else [])
             mids = []
             evs = []
@@ -466,16 +488,17 @@ def _mc_cfg(consts, spec, check=True, forms=False):
     c = dict(consts)
     txt = "SPECIFICATION %s\nCONSTANTS Budget = %d Every = %d IterateLive = FALSE\n" % (spec, c.pop("Budget"), c.pop("Every"))
     c.setdefault("MaxSubs", 0)
+    c.setdefault("Window", _WINDOW_REAL)
     c.setdefault("SubKinds", "{}")
     txt += "CONSTANTS " + " ".join("%s = %s" % kv for kv in c.items()) + "\n"
     if forms:
         txt += 'CONSTANTS Forms = {"app", "pa", "mix"}\n'
     txt += "CONSTRAINT Bound\nVIEW View\n"
     if check:
-        for i in ("TypeOK", "AckEveryReceipt", "DispatchAtMostOnce", "FirstCopyDispatched", "UnreliableAlwaysDelivered", "DispatchReachesAll",
+        for i in ("TypeOK", "AckEveryReceipt", "DispatchAtMostOnce", "FirstCopyDispatched", "MemoryShape", "UnreliableAlwaysDelivered", "DispatchReachesAll",
                   "Partition", "DoneIffAcked", "FailedIffSpent", "IdsIncreasing", "LastIsLast"):
             txt += "INVARIANT %s\n" % i
-        txt += "PROPERTY Final\nPROPERTY OneShotOnce\n"
+        txt += "PROPERTY Final\nPROPERTY OneShotOnce\nPROPERTY RememberedNeverAgain\n"
     return txt
 
 
@@ -503,7 +526,8 @@ class _Agg:
 
 
 def _b1(chk: Check, consts, label, sample_every, max_pairs=0):
-    global _G, _SAMPLE_EVERY
+    global _G, _SAMPLE_EVERY, _B1_WINDOW
+    _B1_WINDOW = consts.get("Window")
     res = common.model_check(chk, "ClientCircuit_MC", _mc_cfg(consts, "Spec"), "ClientCircuit_MC " + label)
     recs = common.export_records(chk, "ClientCircuit_MBT", _mc_cfg(consts, "MSpec", check=False, forms=True),
                                  "ClientCircuit_MBT " + label)
@@ -635,10 +659,54 @@ def _walks_chunk(args):
     return asyncio.run(_walks_async(args))
 
 
-def _b2(chk: Check, traces, label, budget, every_ms):
-    cfg = ("SPECIFICATION TraceSpec\nCONSTANTS Budget = %d Every = %d Window = 1000 IterateLive = FALSE\n"
-           "POSTCONDITION TraceAccepted\nCHECK_DEADLOCK FALSE\n" % (budget, every_ms))
-    acc, rej, results = common.validate_traces("ClientCircuit_Trace", cfg, traces, chk.scratch, shards=8 if chk.tier == "quick" else common.NCPU,
+async def _long_walk_async(args):
+    """Fill the real de-duplication memory and go past it, then retransmit recent and old packets."""
+    seed, window = args
+    import random
+    rng = random.Random(seed)
+    client = _imports()["HippoClient"]()
+    try:
+        drv = Driver(client)
+        evs = []
+        pids = []
+        nxt = rng.randrange(1, 1000)
+
+        async def fresh():
+            nonlocal nxt
+            nxt += rng.randrange(1, 3)
+            pids.append(nxt)
+            evs.append(await drv.recv(nxt, True, [], "app"))
+
+        async def again(back):
+            if back < len(pids):
+                evs.append(await drv.recv(pids[-1 - back], True, [], "app"))
+        for _ in range(window - rng.randrange(0, 3)):
+            await fresh()
+        # around the moment the memory is full, and beyond: every new packet is followed by retransmissions of recent ones
+        for k in range(rng.randrange(6, 14)):
+            await fresh()
+            for back in rng.sample([0, 1, 2, 3, 10, 100, window - 2, window - 1], 3):
+                await again(back)
+            await again(1)
+        for back in (0, 1, 2, 10, window - 1, window, window + 1, len(pids) - 1):      # remembered ... forgotten (open)
+            await again(back)
+        await fresh()
+        for back in (1, 2, 0, window - 1, window):
+            await again(back)
+        drv.close()
+        return _strip(evs)
+    finally:
+        await client.aclose()
+
+
+def _long_walk_chunk(args):
+    return asyncio.run(_long_walk_async(args))
+
+
+def _b2(chk: Check, traces, label, budget, every_ms, window=None):
+    cfg = ("SPECIFICATION TraceSpec\nCONSTANTS Budget = %d Every = %d Window = %d IterateLive = FALSE\n"
+           "POSTCONDITION TraceAccepted\nCHECK_DEADLOCK FALSE\n" % (budget, every_ms, window or _WINDOW_REAL))
+    acc, rej, results = common.validate_traces("ClientCircuit_Trace", cfg, traces, chk.scratch, shards=(2 if len(traces) < 40 else 4) if chk.tier == "quick" else common.NCPU,
                                                tag="c19" + label)
     agg = _Agg()
     for r in results:
@@ -665,7 +733,9 @@ def _b2(chk: Check, traces, label, budget, every_ms):
 
 
 def run(chk: Check):
+    global _WINDOW_REAL
     budget, every = reflect_constants()
+    _WINDOW_REAL = reflect_window()
     chk.cov["rule"] = ("B1: every edge of the exhaustively enumerated bounded model (all interleavings of peer packets "
                        "reliable/unreliable with duplication and reordering, acks in appended/PacketAck/mixed form for "
                        "pending/completed/foreign/not-yet-issued IDs, stray datagrams, reliable and unreliable sends, "
@@ -678,7 +748,9 @@ def run(chk: Check):
                        "B2: recorded histories re-validated by TLC; non-trivial = walks with a retransmission and a "
                        "suppressed duplicate.")
     chk.assumptions += [
-        "fewer distinct inbound reliable packet IDs per circuit than the 1000-entry de-duplication window",
+        "de-duplication memory = the last Window distinct reliable IDs (Window reflected from Circuit.seen_reliable.maxlen); "
+        "what happens to a duplicate of an ID that was pushed out of it is left open (bound to the observed dispatch); the "
+        "exhaustive small-window model is bound by replacing the public deque by a shorter one",
         "peer datagrams are well-formed, UDP-permitted messages (a UDP-banned message is discarded before acking)",
         "the event loop is pumped between datagrams; clock is virtual (module attribute dt of message.circuit)",
         "Tick = clock advance followed by Circuit.resend_unacked() (what HippoClient._attempt_resends calls)",
@@ -699,21 +771,35 @@ def run(chk: Check):
     traces = []
     # receive-heavy, depth bounded
     traces += _b1(chk, dict(base, RelPids="{1,2}", UnrelPids="{3}", MaxRcv=2, MaxSends=2, MaxUnrel=1,
-                            Depth=5 if quick else 6), "recv", 41 if quick else 97, max_pairs=10000 if quick else 0)
+                            Depth=5 if quick else 6), "recv", 97 if quick else 97, max_pairs=6000 if quick else 0)
     # timer-heavy, unbounded depth: budget exhaustion, retransmission counts
     traces += _b1(chk, dict(base, RelPids="{}", UnrelPids="{1}", MaxRcv=1, MaxSends=2, MaxUnrel=0, MaxAcks=1, Depth=0),
-                  "timer", 7)
+                  "timer", 17 if quick else 7)
     # subscribers that remove themselves during dispatch, registered before / after permanent ones, both levels
     traces += _b1(chk, dict(base, RelPids="{1}", UnrelPids="{2}", MaxRcv=2, MaxSends=0, MaxUnrel=0, MaxAcks=0, Ticks="{}",
                             MaxSubs=2, SubKinds='{"perm", "once", "retTrue", "waitfor"}', Depth=5 if quick else 6),
-                  "subscribers", 61 if quick else 211, max_pairs=8000 if quick else 0)
+                  "subscribers", 151 if quick else 211, max_pairs=5000 if quick else 0)
+    # de-duplication memory of 2 (3) IDs: eviction, duplicates of remembered and of forgotten IDs
+    b1_traces = traces
+    wtraces = _b1(chk, dict(base, Window=2, RelPids="{1,2,3}", UnrelPids="{4}", MaxRcv=3, MaxSends=0, MaxUnrel=0, MaxAcks=0,
+                            Ticks="{}", Depth=7 if quick else 9), "window2", 29 if quick else 13)
+    if not quick:
+        w3 = _b1(chk, dict(base, Window=3, RelPids="{1,2,3,4}", UnrelPids="{}", MaxRcv=2, MaxSends=0, MaxUnrel=0, MaxAcks=0,
+                           Ticks="{}", Depth=9), "window3", 0)
+    _b2(chk, wtraces, "b1-histories-window2", budget, every, window=2)
+    traces = b1_traces
     if not quick:
         traces += _b1(chk, dict(base, RelPids="{1}", UnrelPids="{}", MaxRcv=3, MaxSends=1, MaxUnrel=1,
                                 Ticks="{%d, %d, %d}" % (every - 1, every, 1), Depth=9), "edge-times", 211)
     _b2(chk, traces, "b1-histories", budget, every)
-    n_walks, length = (32, 150) if quick else (320, 300)
+    n_walks, length = (24, 150) if quick else (320, 300)
     per = max(1, n_walks // (common.NCPU * 2))
     jobs = [(chk.rng.randrange(1 << 30), per, length, every) for _ in range(n_walks // per)]
     walks = [t for r in common.parallel_map(_walks_chunk, jobs) for t in r]
     _b2(chk, walks, "walks", budget, every)
+    # the real memory: more distinct reliable packets than it holds through ONE real circuit, then retransmissions
+    n_long = 2 if quick else 8
+    longs = common.parallel_map(_long_walk_chunk, [(chk.rng.randrange(1 << 30), _WINDOW_REAL) for _ in range(n_long)])
+    _b2(chk, longs, "window-walks", budget, every)
+    chk.cov["window_walks"] = {"walks": n_long, "window": _WINDOW_REAL, "events": sum(len(t) for t in longs)}
     chk.cov["exhaustive"] = True
